@@ -148,6 +148,14 @@ var h08Lists = [][]string{
 	{"ალფა", "ბეტა"},            // Georgian: lower-case letters that have no title-case form
 	{"alpha", "ßeta", "ŉu"},     // lower-case first letters, two of them without a title-case form
 	{"alpha", "bravo", "bravo"}, // sorted, lower case, with a repeated entry
+	// strings.Title starts a new word after a separator only: ASCII punctuation
+	// other than '_', and Unicode spaces. After '_', a digit, U+2019, a
+	// combining mark it does not, so these capitalised words do not change:
+	{"Foo_bar", "baz"},
+	{"L’enfant", "gamin"},
+	{"E\u0301clair", "tarte"},
+	{"Ab1c", "x"},
+	{"Tab\u00a0le", "x"}, // a no-break space is a separator: Tab\u00a0Le differs
 }
 
 // H08: wordlist entropy is exact and depends on the recipe alone.
